@@ -3,6 +3,7 @@
 package pub
 
 import (
+	"sync"
 	"crypto/sha1"
 	"encoding/hex"
 	"fmt"
@@ -75,7 +76,7 @@ func verifExpect(nodes []verifNode, c *verifCounter, plain bool) []verifMark {
 			out = append(out, verifMark{T: "lab", Target: t})
 		case "imgx": /* media without a source: its text, no number */
 			out = append(out, verifMark{T: "tok", Id: c.token()})
-		case "hr", "br", "long", "wide":
+		case "hr", "br", "long", "wide", "cmt":
 		default:
 			out = append(out, verifExpect(n.Kids, c, plain)...)
 		}
@@ -112,6 +113,9 @@ func verifHTML(rng *rand.Rand, nodes []verifNode, c *verifCounter, inA bool, inH
 			}
 		case "hr":
 			b.WriteString("<hr>")
+		case "cmt":
+			/* something that renders as nothing: a comment, a processing instruction */
+			b.WriteString([]string{"<!-- more -->", "<!---->", "<?php echo 1 ?>", "<!-- a\nb -->"}[rng.Intn(4)])
 		case "br":
 			b.WriteString("<br>")
 		case "long":
@@ -219,6 +223,11 @@ func verifMarkdown(nodes []verifNode, c *verifCounter, inA bool, inline bool, qu
 				return "", false
 			}
 			b.WriteString("\n\n" + quote + "---\n\n" + quote)
+		case "cmt":
+			if inline {
+				return "", false
+			}
+			b.WriteString("\n\n" + quote + "<!-- more -->\n\n" + quote)
 		case "imgx", "br", "ax", "pre", "unk":
 			return "", false
 		case "a":
@@ -375,6 +384,27 @@ func verifReadMarks(rendered string) []verifMark {
 	return marks
 }
 
+/* Numbers of nested link-bearing nodes can stand next to each other ("²⁴" = 2 then 4): when fewer marks were read than
+   the document has, runs of two superscript digits are taken apart until the count fits. */
+func verifSplitLabs(marks []verifMark, want int) []verifMark {
+	for len(marks) < want {
+		split := -1
+		for i, m := range marks {
+			if m.T == "lab" && m.N >= 10 && m.N%10 != 0 {
+				split = i
+				break
+			}
+		}
+		if split < 0 {
+			break
+		}
+		n := marks[split].N
+		rest := append([]verifMark{{T: "lab", N: n / 10}, {T: "lab", N: n % 10}}, marks[split+1:]...)
+		marks = append(marks[:split:split], rest...)
+	}
+	return marks
+}
+
 func verifSuper(s string) int {
 	digits := []rune("⁰¹²³⁴⁵⁶⁷⁸⁹")
 	n := 0
@@ -397,7 +427,7 @@ func verifRandomDoc(rng *rand.Rand, depth int) []verifNode {
 	n := 1 + rng.Intn(4)
 	out := make([]verifNode, n)
 	for i := range out {
-		kind := []string{"txt", "txt", "img", "a", "sty", "blk", "imgx", "hr", "br", "long", "ax", "pre", "unk", "img", "a", "wide"}[rng.Intn(16)]
+		kind := []string{"txt", "txt", "img", "a", "sty", "blk", "imgx", "hr", "br", "long", "ax", "pre", "unk", "img", "a", "wide", "cmt", "cmt"}[rng.Intn(18)]
 		inner := kind == "a" || kind == "sty" || kind == "blk" || kind == "ax" || kind == "pre" || kind == "unk"
 		if depth == 0 && inner {
 			kind, inner = "txt", false
@@ -522,6 +552,62 @@ func verifNarrow(out *verifkit.Trace, rng *rand.Rand, count int) {
 	}
 }
 
+/* documents rendered from several goroutines at once (loaders build new posts while the screen is drawn): each
+   rendering equals the one made alone */
+func verifConcurrentRenders(out *verifkit.Trace, rng *rand.Rand, reals []verifReal, obj *int) {
+	if len(reals) < 8 {
+		return
+	}
+	for round := 0; round < 1+len(reals)/200; round++ {
+		type job struct {
+			real   verifReal
+			w      int
+			markup interface{ Render(int) string }
+			alone  string
+			got    string
+		}
+		jobs := []*job{}
+		for k := 0; k < 8; k++ {
+			real := reals[rng.Intn(len(reals))]
+			o := object.Object{"type": "Note", "content": real.text, "mediaType": real.media}
+			m, _, err := o.GetMarkup("content", "mediaType")
+			if err != nil {
+				continue
+			}
+			w := 20 + rng.Intn(70)
+			jobs = append(jobs, &job{real: real, w: w, markup: m, alone: m.Render(w)})
+		}
+		var wg sync.WaitGroup
+		for _, j := range jobs {
+			j := j
+			wg.Add(1)
+			go func() {
+				defer wg.Done()
+				verifkit.Try(func() {
+					for n := 0; n < 60; n++ {
+						/* a fresh object each time, so that the rendering is really computed */
+						o := object.Object{"type": "Note", "content": j.real.text, "mediaType": j.real.media}
+						m, _, err := o.GetMarkup("content", "mediaType")
+						if err != nil {
+							return
+						}
+						if j.got = m.Render(j.w); j.got != j.alone {
+							break
+						}
+					}
+				})
+			}()
+		}
+		wg.Wait()
+		for _, j := range jobs {
+			*obj++
+			out.Emit(verifkit.M{"ev": "robj", "obj": *obj, "markup": j.real.markup})
+			out.Emit(verifkit.M{"ev": "render", "obj": *obj, "markup": j.real.markup, "w": j.w, "digest": verifDigest(j.got), "fresh": verifDigest(j.alone), "panic": false,
+				"doc": verifkit.Clip(j.real.text, 200), "concurrent": true})
+		}
+	}
+}
+
 func TestVerifMarkup(t *testing.T) {
 	var in struct {
 		Docs   [][]verifNode `json:"docs"`
@@ -553,8 +639,11 @@ func TestVerifMarkup(t *testing.T) {
 	obj := 0
 	var prevPost *Post
 	var prevEvent verifkit.M
+	allReals := []verifReal{}
+	defer func() { verifConcurrentRenders(out, rng, allReals, &obj) }()
 	for di, doc := range docs {
 		for _, real := range verifRealise(rng, doc, di) {
+			allReals = append(allReals, real)
 			attachments := 0
 			if di%3 == 0 {
 				attachments = 1 + rng.Intn(4)
@@ -598,7 +687,7 @@ func TestVerifMarkup(t *testing.T) {
 			for _, w := range widths {
 				var rendered string
 				p2, what2 := verifkit.Try(func() { rendered = post.String(w) })
-				ev := verifkit.M{"ev": "links", "markup": real.markup, "w": w, "marks": verifReadMarks(rendered), "expect": expect,
+				ev := verifkit.M{"ev": "links", "markup": real.markup, "w": w, "marks": verifSplitLabs(verifReadMarks(rendered), len(expect)), "expect": expect,
 					"sel": sel, "doc": verifkit.Clip(real.text, 300), "panic": p2}
 				if p2 {
 					ev["what"] = what2
@@ -627,7 +716,7 @@ func TestVerifMarkup(t *testing.T) {
 				for k, val := range prevEvent {
 					ev[k] = val
 				}
-				ev["sel"], ev["marks"], ev["w"], ev["later"] = again, verifReadMarks(rendered), 220, true
+				ev["sel"], ev["marks"], ev["w"], ev["later"] = again, verifSplitLabs(verifReadMarks(rendered), len(prevEvent["expect"].([]verifMark))), 220, true
 				out.Emit(ev)
 			}
 			prevPost = post
